@@ -200,7 +200,15 @@ class CtlWorld:
                 hasdoc=bool(doc) and squeeze(doc) in squeeze(text))
         # bookkeeping for commands whose method waits: pair the reply with the twin's result once both exist
         if st["writes"] > 1 and st["unanswered"]:
-            k, tw, _doc = st["unanswered"].pop(0)
+            k, tw, _doc, deferred = st["unanswered"].pop(0)
+            if deferred is not None and self.twin is not None:
+                # the line had been sent while the session was busy: the twin performs the call only now, in the
+                # order in which the served pool has just performed it
+                twk, twin_res = self.twin_call(deferred)
+                if twk == "await":
+                    tw = int(twin_res)
+                elif twk != "converr":
+                    self.ev("acmp", s=s, k=k, text=text, twk=twk, twin=norm(twin_res))
             if tw is not None:
                 self.await_pairs.append({"s": s, "k": k, "text": text, "tw": tw})
 
@@ -228,9 +236,15 @@ class CtlWorld:
         st = self.sessions[s]
         st["lines"] += 1
         twk, twin_res, kind, tw = "", "", "none", None
+        deferred = None
         if st.get("over"):
             call = None             # the session has already been told to end (blank line / EOF): nothing will be read
-        if call is not None and self.twin is not None:
+        if call is not None and self.twin is not None and st["unanswered"]:
+            deferred, call_now = call, None     # busy session: see on_write
+            kind = "deferred"
+        else:
+            call_now = call
+        if call_now is not None and self.twin is not None:
             twk, twin_res = self.twin_call(call)
             kind = "value"
             if twk == "await":
@@ -242,7 +256,7 @@ class CtlWorld:
         if blank:
             st["over"] = True
         if not blank:
-            st["unanswered"].append((st["lines"], tw, doc))
+            st["unanswered"].append((st["lines"], tw, doc, deferred))
         self.ev("send", s=s, k=st["lines"], text=text, cls=cls, cmd=cmd, ref=ref, blank=blank, twin=norm(twin_res), twk=twk,
                 twinkind=kind, hascall=call is not None, ser=ser, twi=(tw if tw is not None else -1), doc=doc)
         st["reader"].feed_data(text.encode() + b"\n")
